@@ -12,6 +12,7 @@ import (
 	"testing"
 
 	sdcpb "github.com/sdcio/sdc-protos/sdcpb"
+	"google.golang.org/protobuf/proto"
 	"google.golang.org/protobuf/types/known/anypb"
 	"google.golang.org/protobuf/types/known/emptypb"
 )
@@ -57,8 +58,8 @@ func TestVerifReplayValues(t *testing.T) {
 	for _, a := range vals {
 		for _, b := range vals {
 			n++
-			// fresh copies so that no pointer is shared
-			got := EqualTypedValues(a.tv, b.tv)
+			// a deep copy on one side, so that no pointer is shared (values read from the store are unmarshalled each time)
+			got := EqualTypedValues(a.tv, proto.Clone(b.tv).(*sdcpb.TypedValue))
 			in := fmt.Sprintf("v1=%s#%d,v2=%s#%d", a.kind, a.pay, b.kind, b.pay)
 			if a.kind != b.kind {
 				if got {
